@@ -59,7 +59,7 @@ def transforms(tier):
         out.append(("shear", sh))
     base = [x for x in out if x[0] in ("rotate", "uscale", "nuscale", "mirror")]
     prods = []
-    for (_, t) in tr[:3] if tier == "quick" else tr[:6]:
+    for t in (tr[:3] if tier == "quick" else tr[:6]):
         for kind, m in base[:: (3 if tier == "quick" else 1)]:
             prods.append(("translate." + kind, A.mul(t, m)))
     if tier == "thorough":
@@ -242,8 +242,21 @@ def evaluate(case):
                 for fac in (1.01, 2, 10):
                     items.append((kind, _perturb(d2, fac * tol), tol, "any", f"near{fac}"))
     elif case["fam"] == "same":
-        for tol in TOLS:
+        for tol in TOLS + [2.0, 10.0]:
             items.append(("same", d1, tol, "identity", "same"))
+            # same numbers, one arc flag toggled: a different outline
+            cmds = R1.exploded(R1.parse(R1_abs(d1)))
+            for which in (3, 4):
+                k = 0
+                for idx, (c, a) in enumerate(cmds):
+                    if c == "A":
+                        a2 = list(a)
+                        a2[which] = 1 - int(a2[which])
+                        d2 = " ".join(_ser(cc, (a2 if j == idx else aa)) for j, (cc, aa) in enumerate(cmds))
+                        items.append(("flagtoggle", d2, tol, "any", "flag"))
+                        k += 1
+                        if k >= 2:
+                            break
     elif case["fam"] == "unrelated":
         for other in OUTLINES:
             if other == name:
@@ -265,6 +278,19 @@ def evaluate(case):
         elif why:
             outs["more-violations"] += 1
     return {"n": n, "outs": outs, "nts": nts, "viol": viols, "sample": sample}
+
+
+def _ser(c, a):
+    if c == "A":
+        return f"A{f(a[0])} {f(a[1])} {f(a[2])} {int(a[3])} {int(a[4])} {f(a[5])},{f(a[6])}"
+    if c == "Z":
+        return "Z"
+    return c + " ".join(f(x) for x in a)
+
+
+def R1_abs(d):
+    """absolute, explicit form of d (same structure transformed_d produces)"""
+    return transformed_d(d, (1.0, 0.0, 0.0, 1.0, 0.0, 0.0))
 
 
 def _perturb(d, delta):
